@@ -169,6 +169,15 @@ Proof.
 Qed.
 Print Assumptions C19_returns_unfixed_refuted.
 
+(* the same dead end is reached by a chooser error, and by Ctrl-C typed before the helper
+   has been started (the helper is then never started) *)
+Theorem C19_returns_unfixed_other_witnesses :
+  fst (run_unfixed idle [EvServer hdr_download; EvLaunch ChooserErr]) = stuck_state /\
+  fst (run_unfixed idle [EvServer hdr_download; EvInput [Consts.zmodem_ctrl_c]; EvLaunch LaunchOk]) = stuck_state /\
+  fst (run_unfixed idle [EvServer hdr_download; EvLaunch LaunchFail]) = stuck_state.
+Proof. exact (conj (proj2 unfixed_reaches_stuck) (conj unfixed_reaches_stuck_ctrl_c (proj1 unfixed_reaches_stuck))). Qed.
+Print Assumptions C19_returns_unfixed_other_witnesses.
+
 (* the same two event sequences on the code with the fix *)
 Theorem C19_returns_fixed_on_witness : forall r, r = LaunchFail \/ r = ChooserErr ->
   fst (run_unfixed idle (stuck_events r)) = stuck_state /\
